@@ -265,8 +265,7 @@ theorem inv_step {sign : SignBytes → σ} {s : State σ} (h : Inv sign s) (op :
     simp only [step]
     split
     · exact h
-    · rename_i hf
-      exact inv_restart (inv_signReq h _ q (g q (by simp [servedReq, hf])))
+    · exact inv_restart (inv_signReq (inv_restart h) _ q (fun _ _ _ => rfl))
 
 theorem inv_run {sign : SignBytes → σ} (ops : List Op) : ∀ {s : State σ}, Inv sign s →
     NoDirtyReuse sign s ops → Inv sign (run sign s ops) := by
@@ -395,7 +394,7 @@ theorem step_benign (sign : SignBytes → σ) (s : State σ) (op : Op) (hb : op.
     exact ⟨rfl, rfl⟩
   | cut c q =>
     simp only [step, hfl]
-    exact signReq_benign sign s _ q hb hfl
+    exact signReq_benign sign (restart s) _ q hb hfl
 
 theorem failStop_of_benign (sign : SignBytes → σ) (ops : List Op) : ∀ (s : State σ),
     s.failing = false → (∀ op ∈ ops, op.benign = true) → FailStop sign s ops := by
@@ -479,7 +478,8 @@ theorem invW_step {sign : SignBytes → σ} {s : State σ} (h : InvW sign s) (op
     simp only [step]
     split
     · exact h
-    · have := invW_signReq h (match c with | .old => .killedOld | .new => .killedNew) q
+    · have := invW_signReq (s := restart s) ⟨h.wf_disk, h.wf_disk, h.valid⟩
+        (match c with | .old => .killedOld | .new => .killedNew) q
       exact ⟨this.wf_disk, this.wf_disk, this.valid⟩
 
 theorem invW_run {sign : SignBytes → σ} (ops : List Op) : ∀ {s : State σ}, InvW sign s →
@@ -536,6 +536,6 @@ theorem step_logged (sign : SignBytes → σ) (s : State σ) (op : Op) :
   | cut c q =>
     intro hf
     simp only [step, hf]
-    exact signReq_logged sign _ s q
+    exact signReq_logged sign _ (restart s) q
 
 end GnoVerif.C34
